@@ -2,10 +2,13 @@
    interception plan.  Statements only; proofs are `exact <lemma>` (or a few
    lines of glue) into Proofs/Startup_lemmas.v, each followed by Print Assumptions.
 
-   `startup` is the model of client.main with the repairs pending_fixes/F1 F2
-   F14 F15 F21 applied, `startup_asfound` the code as found (Model/Startup.v).
-   cfg ranges over ALL feature records / listen forms / name-server and subnet
-   lists / user+group lookups, env over ALL busy-port predicates. *)
+   `startup_full` is the model of client.main with the repairs pending_fixes/F1 F2
+   F14 F15 F21 F131 applied, `startup_asfound_full` the code as found
+   (Model/Startup.v).  cfg ranges over ALL feature records / listen forms /
+   name-server and subnet lists / user+group lookups, env over ALL busy-port
+   predicates, renv over ALL ways the kernel may refuse a bind() with another
+   errno (address not local, port not permitted, invalid address, ...);
+   `startup` / `startup_asfound` are the same over kernels that never refuse. *)
 From Coq Require Import List NArith Ascii Bool String.
 From SV Require Import Lib.Bytes Model.Startup Model.StartupMethods Proofs.Startup_lemmas Gen.Consts.
 Import ListNotations.
@@ -15,14 +18,21 @@ Local Open Scope N_scope.
        method offers IPv4 (all shipped ones do, see c15_shipped_methods) and every
        environment, the outcome is an explanatory Fatal or a Plan — never a
        Python exception other than Fatal, never a raw OSError. *)
-Theorem c15_no_internal_error : forall c e,
+Theorem c15_no_internal_error : forall c e rf,
   f_ipv4 (c_feat c) = true ->
-  (forall x, startup c e <> Crash x) /\ (forall n, startup c e <> OsError n).
+  (forall x, startup_full c e rf <> Crash x) /\ (forall n, startup_full c e rf <> OsError n).
 Proof.
-  intros c e H. pose proof (startup_no_crash c e H) as K.
+  intros c e rf H. pose proof (startup_full_no_crash c e rf H) as K.
   split; intros x E; rewrite E in K; exact K.
 Qed.
 Print Assumptions c15_no_internal_error.
+
+(* the same over kernels whose only bind failure is EADDRINUSE (the statement as first proved) *)
+Corollary c15_no_internal_error_busy_only : forall c e,
+  f_ipv4 (c_feat c) = true ->
+  (forall x, startup c e <> Crash x) /\ (forall n, startup c e <> OsError n).
+Proof. intros c e. exact (c15_no_internal_error c e no_refusal). Qed.
+Print Assumptions c15_no_internal_error_busy_only.
 
 (* (2) Whatever plan is handed over is consistent (Model/Startup.v `consistent`:
        default listen addresses are loopback; each listen address is excluded
@@ -30,10 +40,15 @@ Print Assumptions c15_no_internal_error.
        active; every family with subnets / name servers has bound listeners on
        the reported ports; DNS port differs from both TCP ports; ports in range;
        nothing requested that the method cannot do). *)
-Theorem c15_consistent : forall c e p,
+Theorem c15_consistent : forall c e rf p,
+  cfg_ok c -> startup_full c e rf = Plan p -> consistent c (bind_fails e rf) p.
+Proof. exact startup_full_consistent. Qed.
+Print Assumptions c15_consistent.
+
+Corollary c15_consistent_busy_only : forall c e p,
   cfg_ok c -> startup c e = Plan p -> consistent c e p.
 Proof. exact startup_consistent. Qed.
-Print Assumptions c15_consistent.
+Print Assumptions c15_consistent_busy_only.
 
 (* (2b) the hypotheses of (1) and (2) hold for each of the five shipped methods,
         and their default listen addresses are the loopback ones. *)
@@ -53,8 +68,8 @@ Qed.
 Print Assumptions c15_methods_documented.
 
 (* the errno used by the model is this platform's EADDRINUSE (regenerated constant) *)
-Theorem c15_errno_matches : Startup.EADDRINUSE = Consts.EADDRINUSE.
-Proof. reflexivity. Qed.
+Theorem c15_errno_matches : Startup.EADDRINUSE = Consts.EADDRINUSE /\ Startup.EADDRNOTAVAIL = Consts.EADDRNOTAVAIL.
+Proof. split; reflexivity. Qed.
 Print Assumptions c15_errno_matches.
 
 (* ---- the code as found falsifies (1), (2) and (3): one witness per defect ---- *)
@@ -82,6 +97,22 @@ Theorem c15_no_internal_error_refuted_F21_dns : exists c e,
 Proof. exists w_F21b, env_F21b. split; [exact w_F21b_ok|]. split; [exact asfound_F21b|split; reflexivity]. Qed.
 Print Assumptions c15_no_internal_error_refuted_F21_dns.
 
+(* F131: a listen address that is not the machine's / a port the process may not bind -> the
+   kernel's errno (EADDRNOTAVAIL 99, EACCES 13) re-raised raw, in the redirector search ... *)
+Theorem c15_no_internal_error_refuted_F131 : exists c e rf n,
+  cfg_ok c /\ startup_asfound_full c e rf = OsError n /\ n <> Startup.EADDRINUSE.
+Proof. exists w_F131, free_env, rf_F131, 99. split; [exact w_F131_ok|]. split; [exact asfound_F131|discriminate]. Qed.
+Print Assumptions c15_no_internal_error_refuted_F131.
+
+(* ... and in the DNS listener search *)
+Theorem c15_no_internal_error_refuted_F131_dns : exists c e rf n,
+  cfg_ok c /\ startup_asfound_full c e rf = OsError n /\ n <> Startup.EADDRINUSE /\ c_ns_hosts c <> [].
+Proof.
+  exists w_F131c, free_env, rf_F131c, 99. split; [exact w_F131c_ok|]. split; [exact asfound_F131c|].
+  split; discriminate.
+Qed.
+Print Assumptions c15_no_internal_error_refuted_F131_dns.
+
 (* F2: an explicit TCP port inside the DNS search range is handed out again as DNS port *)
 Theorem c15_consistent_refuted_F2 : exists c e p,
   cfg_ok c /\ startup_asfound c e = Plan p /\ p_dport V4 p <> 0 /\ p_dport V4 p = p_rport V4 p.
@@ -108,12 +139,13 @@ Print Assumptions c15_methods_documented_refuted_F11.
 
 (* every repair is needed on its own (all others applied, the witness still fails) *)
 Theorem c15_each_repair_needed :
-  startup_gen (only_without 1) w_F1 free_env = Crash UnboundLocalError /\
-  startup_gen (only_without 14) w_F14 free_env = Crash TypeError /\
-  startup_gen (only_without 21) w_F21 env_F21 = OsError Startup.EADDRINUSE /\
-  (exists p, startup_gen (only_without 2) w_F2 free_env = Plan p /\ p_dport4 p = p_rport4 p) /\
-  (exists p, startup_gen (only_without 15) w_F15 free_env = Plan p /\ p_group p = Some 1000).
-Proof. exact (conj needs_F1 (conj needs_F14 (conj needs_F21 (conj needs_F2 needs_F15)))). Qed.
+  startup_gen (only_without 1) w_F1 free_env no_refusal = Crash UnboundLocalError /\
+  startup_gen (only_without 14) w_F14 free_env no_refusal = Crash TypeError /\
+  startup_gen (only_without 21) w_F21 env_F21 no_refusal = OsError Startup.EADDRINUSE /\
+  (exists p, startup_gen (only_without 2) w_F2 free_env no_refusal = Plan p /\ p_dport4 p = p_rport4 p) /\
+  (exists p, startup_gen (only_without 15) w_F15 free_env no_refusal = Plan p /\ p_group p = Some 1000) /\
+  startup_gen (only_without 131) w_F131 free_env rf_F131 = OsError 99.
+Proof. exact (conj needs_F1 (conj needs_F14 (conj needs_F21 (conj needs_F2 (conj needs_F15 needs_F131))))). Qed.
 Print Assumptions c15_each_repair_needed.
 
 (* ---- non-vacuity: the hypotheses are satisfiable and plans do come out ---- *)
@@ -138,3 +170,15 @@ Example c15_ex_repaired_F21 : startup w_F21 env_F21 = Fatal FPortsBusy.
 Proof. exact repaired_F21. Qed.
 Example c15_ex_repaired_F21_dns : startup w_F21b env_F21b = Fatal FDnsPortsBusy.
 Proof. exact repaired_F21b. Qed.
+Example c15_ex_repaired_F131 : startup_full w_F131 free_env rf_F131 = Fatal FBindRefused.
+Proof. exact repaired_F131. Qed.
+Example c15_ex_repaired_F131_privileged_port : startup_full w_F131b free_env rf_unpriv = Fatal FBindRefused.
+Proof. exact repaired_F131b. Qed.
+Example c15_ex_repaired_F131_dns : startup_full w_F131c free_env rf_F131c = Fatal FDnsBindRefused.
+Proof. exact repaired_F131c. Qed.
+(* IPv6 switched off in the kernel is explained by the code as found already; a refusal at an
+   address start-up never binds changes nothing *)
+Example c15_ex_no_v6 : startup_asfound_full (w_base feat_nat LAuto LAuto) free_env rf_no_v6 = Fatal FV6Unavailable.
+Proof. exact (proj1 no_v6_explained). Qed.
+Example c15_ex_refusal_elsewhere : exists p, startup_full w_F1 free_env rf_F131 = Plan p /\ p_rport4 p = 5004.
+Proof. exact refusal_elsewhere. Qed.
